@@ -803,6 +803,30 @@ M('C11', 'plus_identity: factors commuted / condition flipped (equivalent)', MPO
 M('C11', 'plus_identity: chain condition flipped (equivalent)', MPO,
   "g = 1 if counter != 0 else beta", "g = beta if counter == 0 else 1", None, expect='silent')
 
+M('C17', 'LegPipe.from_hdf5 passes sorted/bunched in swapped roles (round-3 seed b)', CH,
+  "obj = cls(legs, qconj, sorted, bunched)", "obj = cls(legs, qconj, bunched, sorted)", 'HDF5-ctor-roles')
+M('C17', 'LegPipe.from_hdf5 passes the flags by keyword in another order (equivalent)', CH,
+  "obj = cls(legs, qconj, sorted, bunched)", "obj = cls(legs, qconj, bunch=bunched, sort=sorted)", None,
+  expect='silent')
+M('C17', 'Config.from_hdf5 memorizes after load_dict entered the bare dict (round-3 seed a)',
+  'tenpy/tools/params.py', """        hdf5_loader.memorize_load(h5gr, obj)
+        obj.options = hdf5_loader.load_dict(h5gr, dict_format, subpath)
+        obj.name = hdf5_loader.get_attr(h5gr, 'name')
+        obj.unused = set(hdf5_loader.get_attr(h5gr, 'unused'))
+""", """        obj.options = hdf5_loader.load_dict(h5gr, dict_format, subpath)
+        obj.name = hdf5_loader.get_attr(h5gr, 'name')
+        obj.unused = set(hdf5_loader.get_attr(h5gr, 'unused'))
+        hdf5_loader.memorize_load(h5gr, obj)
+""", 'HDF5-memo-from')
+M('C17', 'Config.from_hdf5 reads the plain attributes first (equivalent)',
+  'tenpy/tools/params.py', """        hdf5_loader.memorize_load(h5gr, obj)
+        obj.options = hdf5_loader.load_dict(h5gr, dict_format, subpath)
+        obj.name = hdf5_loader.get_attr(h5gr, 'name')
+""", """        obj.name = hdf5_loader.get_attr(h5gr, 'name')
+        hdf5_loader.memorize_load(h5gr, obj)
+        obj.options = hdf5_loader.load_dict(h5gr, dict_format, subpath)
+""", None, expect='silent')
+
 # ---------------------------------------------------------------- C16 / C19
 M('C16', 'GMRES restart: relative residual norm used for normalisation (round-3 seed b)', KRY,
   """        self.total_error.append([npc.norm(self.rs[-1]) / self.b_norm])
